@@ -45,7 +45,9 @@ def job(chk, item):
         label = '%s name of %d characters at depth %d%s' % (cat, length, depth, ' (binary content)' if binary else '')
         for r in paths:
             if r.outcome == 'unsupported':
-                chk.undecide('%s: %s' % (label, r.value)); continue
+                chk.undecide('%s: %s' % (label, r.value))
+                native_name_family(chk, cat, pats, names)
+                continue
             s = z3.Solver(); s.add(*cons); s.add(*r.pc)
             if s.check() != z3.sat:
                 continue
@@ -102,6 +104,38 @@ def validate_path(chk, cat, ents, nm, s, r, contributed, pats, names, label):
     if listed != contributed:
         chk.broken('%s: name %r: engine says the file %s to the result, the real analyze_dir says it %s' % (
             label, text, 'contributes' if contributed else 'does not contribute', 'does' if listed else 'does not'))
+
+
+_FAMILY_DONE = set()
+FILE_NAMES = ['a.sol', 'A.SOL', 'b.Sol', 'a.t.sol', 'A.T.Sol', 'x.T.SOL', '.sol', '.a.sol', '..sol', 'a.b.sol', '.t.ſol.sol', 'ſ.sol', 'sol', 'a.txt', '日a.md', 'メモb.txt',
+              'a.sol ', ' a.sol', 'a.solx', 'a.sol.txt', 't.sol', 'at.sol', 'a.tt.sol']
+DIR_NAMES = ['d', 'x.t.sol', '.hidden', 'T.SOL', 'a.sol', 'sp ace', 'ünï', '.t.ſol']
+
+
+def native_name_family(chk, cat, pats, names):
+    """DESIGN 4.4: when the name test cannot be encoded, the compiled analyze_dir is still held against the eligibility rule on a family
+    of concrete file and directory names (once per category)"""
+    if cat in _FAMILY_DONE:
+        return
+    _FAMILY_DONE.add(cat)
+    pn = [names[p] for p in pats]
+    for dname in DIR_NAMES:
+        root = os.path.join(chk.native.dir, 'fam%d' % chk.native.n)
+        chk.native.n += 1
+        ents = [('dir', dname, [('file', fn_, 't%d' % i) + (('binary',) if not dl.eligible(fn_) and i % 2 else ()) for i, fn_ in enumerate(FILE_NAMES)]), ('file', 'fixed.sol', 'fix')]
+        dl.materialise(ents, root, lambda tag: pn)
+        got, want, raw = dl.native_union(chk, cat, root, pn)
+        chk.states += 1
+        # names that contain `.t.sol` without ending in it are left to either reading (see DESIGN C16)
+        unclear = {f for f in FILE_NAMES if dl.eligible(f) is False and f.endswith('.sol') and not f.lower().endswith('.t.sol')}
+        strip = lambda lst: sorted(x for x in (lst or []) if x[1] not in unclear)
+        if got is None or strip(got) != strip(want):
+            missing = sorted({x[1] for x in strip(want)} - {x[1] for x in strip(got or [])})
+            extra = sorted({x[1] for x in strip(got or [])} - {x[1] for x in strip(want)})
+            chk.violation('%s:eligibility:name-family' % cat, '%s: files below the directory %r: not analysed although eligible %r, analysed although not eligible %r%s' % (
+                cat, dname, missing, extra, '' if got is not None else ' (%r)' % (raw,)), {'job': 'analyze_dir', 'category': cat, 'tree': ents, 'patterns': pn, 'expected': want, 'observed': got if got is not None else raw})
+        else:
+            chk.ok()
 
 
 def dir_job(chk, item):
